@@ -239,7 +239,7 @@ def stream_sequences(ctx, drv, n_seq):
     prereq = regex.compile(r"(?m)\b(?:FROM|JOIN) t_(\w+)").findall
     queries = [[q, prereq(probe.queries[q])] for q in query_ids]
     texts = list(TEXTS)  # fixed prefix (the indices of the fixed sequences refer to it)
-    texts += drawn_texts(ctx, n_corpus=6 if ctx.tier == "quick" else 40, n_generated=10 if ctx.tier == "quick" else 70)
+    texts += drawn_texts(ctx, n_corpus=6 if ctx.tier == "quick" else 30, n_generated=10 if ctx.tier == "quick" else 50)
     recs = [reference(t, query_ids) for t in texts]
     from paroxython.list_programs import get_program
     for h, b in BASE_OF_HINTED.items():
@@ -273,8 +273,11 @@ def stream_sequences(ctx, drv, n_seq):
             seq = seq + [seq[0]] + seq[:2]
         proc = Proc()
         fa.pseudo_hash.reset()
+        used = sorted(set(seq))  # only the programs of this sequence are sent to the driver
+        remap = {g: k for k, g in enumerate(used)}
         m = drv.call("c03.run", queries=queries, literal=[[a, b] for a, b in lit0.items()], taxon_like=taxon_like,
-                     compiled=compiled, programs=progs_req, sequence=seq, trace=True)["steps"]
+                     compiled=compiled, programs=[progs_req[g] for g in used], sequence=[remap[g] for g in seq],
+                     trace=True)["steps"]
         memo_base = memo_size(proc)
         for pos, idx in enumerate(seq):
             text, ref, ms = texts[idx], recs[idx], m[pos]
@@ -568,7 +571,7 @@ def run(ctx):
         "sub-collections: distinct (directory, proper subset, program); hash-seeds: distinct directory × seed"
     )
     try:
-        stream_sequences(ctx, drv, 14 if quick else 300)
+        stream_sequences(ctx, drv, 14 if quick else 200)
         stream_cache_pressure(ctx, 1 if quick else 4)
         stream_collections(ctx, drv, 6 if quick else 80)
         stream_hashseeds(ctx, 3 if quick else 16, 3 if quick else 6)
